@@ -76,7 +76,10 @@ pub fn run_round_at(ctx: &mut Ctx, rig: &mut Rig, sends: Vec<(usize, Vec<u8>)>, 
         ctx.dropped_rounds += 1;
         return;
     }
-    for s in &round { ctx.emit(json!({"ev": "arrive", "id": s.id, "sock": s.sock, "f": s.features})); }
+    for s in &round {
+        if s.sock == rig::UNROUTABLE { ctx.emit(json!({"ev": "arrive", "id": s.id, "sock": s.sock, "f": s.features, "unroutable": true})); }
+        else { ctx.emit(json!({"ev": "arrive", "id": s.id, "sock": s.sock, "f": s.features})); }
+    }
     ctx.emit(json!({"ev": "pumped", "panic": panic.is_some(), "panic_msg": panic.clone().unwrap_or_default(), "wedged": really_wedged,
                     "unconsumed": expect.saturating_sub(consumed)}));
     // fault-injection flags from the hook at the should_add_error() site, per destination port in order
@@ -118,7 +121,7 @@ pub fn mutant(rng: &mut Rng, srv: &[u8]) -> Vec<u8> {
     let with_srv = rng.chance(1, 3);
     let base = valid_request(rng, p, size, if with_srv { Some(srv) } else { None });
     let mut b = base.clone();
-    match rng.below(17) {
+    match rng.below(21) {
         0 => { b.truncate(rng.below(b.len() as u64) as usize); }                       // truncated
         1 => { let extra = rng.below(600) as usize + 1; let e = rng.bytes(extra); b.extend(e); } // extended
         2 => { b.truncate(1020); }                                                      // just below the minimum
@@ -132,7 +135,17 @@ pub fn mutant(rng: &mut Rng, srv: &[u8]) -> Vec<u8> {
             b = proto::build_request(p, &nonce, size.min(1500), &[proto::VER_DRAFT13], None);
         }
         7 => { let i = rng.below(40.min(b.len() as u64)) as usize; b[i] = rng.below(256) as u8; }  // header byte
-        8 => { let off = if p == Proto::Ietf { 12 } else { 0 }; let w = *rng.pick(&[0u32, 1, 3, 5, 0xffff_ffff, 1025]); b[off..off + 4].copy_from_slice(&w.to_le_bytes()); } // tag count
+        8 => {   // tag count: small values, huge values, and values at the boundaries the message length defines
+                 // (words in the message, half of them = header fills the message, +-1 of each)
+            let off = if p == Proto::Ietf { 12 } else { 0 };
+            let words = ((b.len() - off) / 4) as u32;
+            let w = match rng.below(3) {
+                0 => *rng.pick(&[0u32, 1, 3, 5, 0xffff_ffff, 1025, 1024, 1023]),
+                1 => (words + rng.below(5) as u32).wrapping_sub(2),
+                _ => (words / 2 + rng.below(5) as u32).wrapping_sub(2),
+            };
+            b[off..off + 4].copy_from_slice(&w.to_le_bytes());
+        }
         9 => { let off = if p == Proto::Ietf { 16 } else { 4 }; let w = *rng.pick(&[1u32, 2, 0xffff_fffc, 2000, 7]); b[off..off + 4].copy_from_slice(&w.to_le_bytes()); } // first offset
         15 => { // an offset just inside / at the end of the whole message (beyond the value area)
             let off = if p == Proto::Ietf { 16 } else { 4 };
@@ -144,6 +157,46 @@ pub fn mutant(rng: &mut Rng, srv: &[u8]) -> Vec<u8> {
         12 => { let l = rng.range(1024, 1500) as usize; b = rng.bytes(l); }
         13 if p == Proto::Ietf => { // version list variants
             let vers: Vec<u32> = (0..rng.below(7)).map(|_| *rng.pick(&[proto::VER_DRAFT13, 0, 1, 0x8000_000b])).collect();
+            let nonce = rng.bytes(32);
+            b = proto::build_request(p, &nonce, size, &vers, None);
+        }
+        16 => {   // every offset from the k-th on shifted by a small amount: unaligned field boundaries while the
+                  // lengths of the fields after the first shifted one (NONC in particular) stay what they were
+            let off = if p == Proto::Ietf { 12 } else { 0 };
+            let nt = crate::util::rd32(&b[off..]) as usize;
+            if nt >= 2 && nt <= 8 {
+                let k = rng.below((nt - 1) as u64) as usize;
+                let delta = *rng.pick(&[1i64, 2, 3, 5, 6, 7, -1, -2, -3, 4, -4]);
+                for j in k..nt - 1 {
+                    let pos = off + 4 + 4 * j;
+                    let w = (crate::util::rd32(&b[pos..]) as i64 + delta).max(0) as u32;
+                    b[pos..pos + 4].copy_from_slice(&w.to_le_bytes());
+                }
+            }
+        }
+        17 => {   // a tag word replaced by a near miss of a known tag (one byte differs)
+            let off = if p == Proto::Ietf { 12 } else { 0 };
+            let nt = crate::util::rd32(&b[off..]) as usize;
+            if nt >= 1 && nt <= 8 {
+                let k = rng.below(nt as u64) as usize;
+                let pos = off + 4 * (if nt < 2 { 1 } else { nt }) + 4 * k;
+                let i = rng.below(4) as usize;
+                b[pos + i] = match rng.below(5) { 0 => 0x00, 1 => 0xff, 2 => b[pos + i] ^ 0x20, 3 => b[pos + i].wrapping_add(1), _ => b[pos + i] ^ 0x80 };
+            }
+        }
+        18 if p == Proto::Ietf => {   // SRV of a wrong length that agrees with this server's value as far as it goes
+            let l = *rng.pick(&[0usize, 4, 16, 28, 31, 33, 36, 64]) & !3;
+            let mut sv = srv.to_vec(); sv.resize(l, 0x5a);
+            let nonce = rng.bytes(32);
+            b = proto::build_request(p, &nonce, size, &[proto::VER_DRAFT13], Some(&sv));
+        }
+        19 if p == Proto::Ietf => {   // version lists whose neighbouring entries contain the draft-13 bytes across their boundary
+            let d = proto::VER_DRAFT13.to_le_bytes();
+            let sh = rng.range(1, 3) as usize;
+            let mut two = [0x11u8; 8];
+            two[sh..sh + 4].copy_from_slice(&d);
+            let mut vers = vec![u32::from_le_bytes([two[0], two[1], two[2], two[3]]), u32::from_le_bytes([two[4], two[5], two[6], two[7]])];
+            if rng.chance(1, 2) { vers.insert(0, 1); }
             let nonce = rng.bytes(32);
             b = proto::build_request(p, &nonce, size, &vers, None);
         }
@@ -180,6 +233,41 @@ pub fn drive_sizes(ctx: &mut Ctx, rng: &mut Rng, thorough: bool) {
                     let d = proto::build_request(p, &nonce, size, &[proto::VER_DRAFT13], None);
                     let s = sentinel(rng, nl as u64);
                     run_round(ctx, &mut rig, vec![(0, d), (1, s)], vec![], false);
+                }
+            }
+            // tag counts around every boundary the datagram length defines, for the smallest and the largest request
+            for p in [Proto::Google, Proto::Ietf] {
+                for size in [1024usize, 1500] {
+                    let base = valid_request(rng, p, size, None);
+                    let off = if p == Proto::Ietf { 12 } else { 0 };
+                    let words = ((base.len() - off) / 4) as u32;
+                    for c in [words - 2, words - 1, words, words + 1, words + 2, words / 2 - 1, words / 2, words / 2 + 1, (base.len() / 4) as u32, (base.len() / 4) as u32 + 1] {
+                        let mut d = base.clone();
+                        d[off..off + 4].copy_from_slice(&c.to_le_bytes());
+                        let s = sentinel(rng, c as u64);
+                        run_round(ctx, &mut rig, vec![(0, d), (1, s)], vec![], false);
+                    }
+                }
+            }
+            // every suffix of the offset table shifted by every small amount, for each request shape
+            for p in [Proto::Google, Proto::Ietf] {
+                for with_srv in [false, true] {
+                    if p == Proto::Google && with_srv { continue; }
+                    let base = valid_request(rng, p, 1024, if with_srv { Some(&srv) } else { None });
+                    let off = if p == Proto::Ietf { 12 } else { 0 };
+                    let nt = crate::util::rd32(&base[off..]) as usize;
+                    for k in 0..nt - 1 {
+                        for delta in [1i64, 2, 3, 4, 5, 6, 7, 8, -1, -2, -3, -4] {
+                            let mut d = base.clone();
+                            for j in k..nt - 1 {
+                                let pos = off + 4 + 4 * j;
+                                let w = (crate::util::rd32(&d[pos..]) as i64 + delta).max(0) as u32;
+                                d[pos..pos + 4].copy_from_slice(&w.to_le_bytes());
+                            }
+                            let s = sentinel(rng, k as u64);
+                            run_round(ctx, &mut rig, vec![(0, d), (1, s)], vec![], false);
+                        }
+                    }
                 }
             }
             // full batches of 64 at maximum path depth, smallest requests
@@ -230,7 +318,12 @@ pub fn replay_versions(ctx: &mut Ctx, rng: &mut Rng, path: &str) -> u64 {
     for line in std::io::BufReader::new(f).lines() {
         let line = line.unwrap();
         let c: Value = match serde_json::from_str(&line) { Ok(v) => v, Err(_) => continue };
-        let vers: Vec<u32> = c["ver"].as_array().map(|a| a.iter().map(|x| match x.as_u64().unwrap_or(0) { 13 => proto::VER_DRAFT13, 0 => 0, 1001 => 1, 1002 => 0x8000_000b, _ => 0x7fff_ffff }).collect()).unwrap_or_default();
+        let vers: Vec<u32> = c["ver"].as_array().map(|a| a.iter().map(|x| match x.as_u64().unwrap_or(0) { 13 => proto::VER_DRAFT13, 0 => 0, 1001 => 1, 1002 => 0x8000_000b,
+            // adversarial unknown numbers (MC_Request.VerCodes): neighbours contain the draft-13 bytes 0c 00 00 80 across their boundary
+            1003 => u32::from_le_bytes([0x11, 0x0c, 0x00, 0x00]), 1004 => u32::from_le_bytes([0x80, 0x11, 0x11, 0x11]),
+            1005 => u32::from_le_bytes([0x11, 0x11, 0x0c, 0x00]), 1006 => u32::from_le_bytes([0x00, 0x80, 0x11, 0x11]),
+            1007 => u32::from_le_bytes([0x11, 0x11, 0x11, 0x0c]), 1008 => u32::from_le_bytes([0x00, 0x00, 0x80, 0x11]),
+            1009 => 0x0000_000c, 1010 => 0x0c00_0080, _ => 0x7fff_ffff }).collect()).unwrap_or_default();
         let srvv: Option<&[u8]> = match c["srv"].as_str().unwrap_or("absent") { "ok" => Some(&srv), "wrong" => Some(&other), _ => None };
         let nonce = rng.bytes(32);
         let d = proto::build_request(Proto::Ietf, &nonce, 1024, &vers, srvv);
@@ -267,15 +360,28 @@ pub fn drive_bursts(ctx: &mut Ctx, rng: &mut Rng, thorough: bool) {
                     _ => mutant(rng, &srv),
                 };
                 sends.push((sock, d));
+                // a retransmission: the same datagram from the same socket, back to back (each copy is a request of its own)
+                if rng.chance(1, 8) { let last = sends[sends.len() - 1].clone(); sends.push(last); }
+                // a request whose response cannot be sent (source port 0): the others of its batch are unaffected
+                if rig.can_spoof() && rng.chance(1, 16) { let pp = if rng.chance(1, 2) { Proto::Google } else { Proto::Ietf }; sends.push((rig::UNROUTABLE, valid_request(rng, pp, 1024, None))); }
             }
             // some of the burst arrives while the batch is being collected
             let mut injections = vec![];
             if r % 3 == 2 && sends.len() > 2 {
                 let k = rng.range(1, (sends.len() / 2) as u64) as usize;
-                let late: Vec<(usize, Vec<u8>)> = sends.split_off(sends.len() - k);
+                let (late, keep): (Vec<(usize, Vec<u8>)>, Vec<(usize, Vec<u8>)>) = sends.split_off(sends.len() - k).into_iter().partition(|(s, _)| *s != rig::UNROUTABLE);
+                sends.extend(keep);   // (the tracer injects through the ordinary client sockets only)
                 for (j, (s, d)) in late.into_iter().enumerate() { injections.push((1 + (j % sends.len().max(1)), s, d)); }
             }
             run_round(ctx, &mut rig, sends, injections, false);
+        }
+        // a backlog of more batches than one wake-up handles (the drain loop is bounded): every request is still answered
+        if batch <= 4 {
+            for mult in [17usize, 35] {
+                let n = mult * batch as usize + 1;
+                let sends: Vec<(usize, Vec<u8>)> = (0..n).map(|i| (i % 48, valid_request(rng, if i % 3 == 0 { Proto::Ietf } else { Proto::Google }, 1024, None))).collect();
+                run_round(ctx, &mut rig, sends, vec![], false);
+            }
         }
         let st = rig.stats_event();
         ctx.emit(st);
@@ -363,10 +469,30 @@ pub fn drive_hostile(ctx: &mut Ctx, rng: &mut Rng, thorough: bool) {
                         };
                         sends.push((2 + i % 6, d));
                     }
+                    // once per section: tag counts at the boundaries the datagram length defines
+                    if r == 0 {
+                        for p in [Proto::Google, Proto::Ietf] {
+                            let base = valid_request(rng, p, 1024, None);
+                            let off = if p == Proto::Ietf { 12 } else { 0 };
+                            let words = ((base.len() - off) / 4) as u32;
+                            for cnt in [words - 1, words, words + 1, words / 2, words / 2 + 1, (base.len() / 4) as u32 + 1] {
+                                let mut d = base.clone();
+                                d[off..off + 4].copy_from_slice(&cnt.to_le_bytes());
+                                sends.push((2 + sends.len() % 6, d));
+                            }
+                        }
+                    }
                     // the full batch of invalid datagrams followed by a valid request exercises early exits of the drain loop
                     if r % 5 == 4 { sends = (0..*batch as usize).map(|i| (2 + i % 6, rng.bytes(1024))).collect(); }
                     sends.push((0, valid_request(rng, Proto::Google, 1024, None)));
                     sends.push((1, valid_request(rng, Proto::Ietf, 1024, None)));
+                    run_round(ctx, &mut rig, sends, vec![], false);
+                }
+                // more queued batches than one wake-up handles, hostile datagrams among them
+                if *batch <= 4 {
+                    let n = 18 * *batch as usize + 2;
+                    let mut sends: Vec<(usize, Vec<u8>)> = (0..n).map(|i| (i % 8, if i % 4 == 3 { mutant(rng, &srv) } else { valid_request(rng, if i % 2 == 0 { Proto::Google } else { Proto::Ietf }, 1024, None) })).collect();
+                    sends.push((0, valid_request(rng, Proto::Google, 1024, None)));
                     run_round(ctx, &mut rig, sends, vec![], false);
                 }
             }
@@ -481,32 +607,38 @@ pub fn drive_cfgleak(ctx: &mut Ctx, rng: &mut Rng, workdir: &str) {
 
 /// C15 (health check, in-process): connection schedules of Health.tla replayed through the hook tracer, then seeded bursts
 pub fn drive_health(ctx: &mut Ctx, rng: &mut Rng, path: &str, thorough: bool) -> u64 {
-    let mut schedules: Vec<(usize, Vec<usize>)> = vec![];
+    // a schedule: connections made before the worker polls, connections made after `acc` accepts of the running readiness
+    // event, and the kind of every connection in the order they are made ("L" stays open, "A" is reset by the peer at once)
+    let mut schedules: Vec<(usize, Vec<usize>, Vec<bool>)> = vec![];
     if !path.is_empty() {
         if let Ok(f) = std::fs::File::open(path) {
             for line in std::io::BufReader::new(f).lines() {
                 if let Ok(c) = serde_json::from_str::<Value>(&line.unwrap()) {
-                    schedules.push((c["pre"].as_u64().unwrap_or(1) as usize, c["during"].as_array().map(|a| a.iter().map(|x| x.as_u64().unwrap_or(0) as usize).collect()).unwrap_or_default()));
+                    schedules.push((c["pre"].as_u64().unwrap_or(1) as usize, c["during"].as_array().map(|a| a.iter().map(|x| x.as_u64().unwrap_or(0) as usize).collect()).unwrap_or_default(),
+                                    c["kinds"].as_array().map(|a| a.iter().map(|x| x.as_str() == Some("A")).collect()).unwrap_or_default()));
                 }
             }
         }
     }
     let replayed = schedules.len() as u64;
-    for _ in 0..(if thorough { 40 } else { 12 }) {
+    for k in 0..(if thorough { 40 } else { 12 }) {
         let pre = rng.range(1, 70) as usize;
         let during: Vec<usize> = (0..rng.below(6)).map(|_| rng.below(pre as u64 + 1) as usize).collect();
-        schedules.push((pre, during));
+        let kinds: Vec<bool> = (0..pre + during.len()).map(|_| k % 2 == 1 && rng.chance(1, 4)).collect();
+        schedules.push((pre, during, kinds));
     }
     let mut c = cfg(8, 0, 0, 4);
     c.hc = true;
     let mut rig = match new_section(ctx, c) { Some(r) => r, None => return 0 };
-    for (pre, during) in schedules {
-        rig.hc_connect(pre);
-        let mut total = pre;
-        for acc in during {
-            total += 1;
+    for (pre, during, kinds) in schedules {
+        let aborted = |i: usize| kinds.get(i).copied().unwrap_or(false);
+        for i in 0..pre { rig.hc_connect_kind(aborted(i)); }
+        let mut total = (0..pre).filter(|i| !aborted(*i)).count();     // connections that stay open: each must be answered
+        for (j, acc) in during.into_iter().enumerate() {
+            let a = aborted(pre + j);
+            if !a { total += 1; }
             // the connection arrives after `acc` accepts of the current readiness event (acc = 0: right after poll returned)
-            if acc == 0 { rig.plan_hc_connect_at("evt", 1, 1); } else { rig.plan_hc_connect_at("hc_accept", acc, 1); }
+            if acc == 0 { rig.plan_hc_connect_at("evt", 1, a); } else { rig.plan_hc_connect_at("hc_accept", acc, a); }
         }
         // time service continues: two requests ride along
         let s1 = valid_request(rng, Proto::Google, 1024, None);
@@ -553,7 +685,15 @@ pub fn drive_stats(ctx: &mut Ctx, rng: &mut Rng, thorough: bool) {
         let srv = rig.srv.clone();
         for _ in 0..(if thorough { 60 } else { 20 }) {
             let n = rng.range(1, 20) as usize;
-            let sends: Vec<(usize, Vec<u8>)> = (0..n).map(|i| (i % 12, match rng.below(3) { 0 => mutant(rng, &srv), 1 => valid_request(rng, Proto::Google, 1024, None), _ => valid_request(rng, Proto::Ietf, 1028, None) })).collect();
+            let mut sends: Vec<(usize, Vec<u8>)> = (0..n).map(|i| (i % 12, match rng.below(3) { 0 => mutant(rng, &srv), 1 => valid_request(rng, Proto::Google, 1024, None), _ => valid_request(rng, Proto::Ietf, 1028, None) })).collect();
+            // failed sends: valid requests from a source the operating system refuses to send to, anywhere in the burst
+            if rig.can_spoof() {
+                for _ in 0..rng.below(3) {
+                    let at = rng.below(sends.len() as u64 + 1) as usize;
+                    let pp = if rng.chance(1, 2) { Proto::Google } else { Proto::Ietf };
+                    sends.insert(at, (rig::UNROUTABLE, valid_request(rng, pp, 1024, None)));
+                }
+            }
             run_round(ctx, &mut rig, sends, vec![], false);
         }
         let st = rig.stats_event();
